@@ -564,6 +564,33 @@ def run_history(case, ctx):
     ctx.nt(ts.num_trees >= 2 and bool(m.labels & NT_LABELS))
 
 
+# ------------------------------------------------------------------ sub-check: larger trees
+def enum_large(tier, seed):
+    sizes = [65, 130] if tier == "quick" else [65, 130, 257, 300]
+    hist = [["last"], ["prev"], ["prev"], ["first"], ["next"], ["clear"], ["prev"], ["copy", 0], ["next"], ["next"],
+            ["first"], ["seek_index", 1], ["seek_index", 0], ["clear"], ["last"], ["next"], ["next"]]
+    for sa, sb in (("comb", "balanced"), ("star", "comb"), ("multiroot", "star")):
+        for k in sizes:
+            for sl in (True, False):
+                yield dict(sa=sa, sb=sb, k=k, sample_lists=sl, ops=hist)
+
+
+def run_large(case, ctx):
+    """Navigation histories on trees with hundreds of nodes (wide polytomies, deep combs, many roots) and
+    internal samples among the tracked ones."""
+    import tskit
+
+    from ._shapes import two_tree_spec
+
+    k = case["k"]
+    spec = two_tree_spec(case["sa"], case["sb"], k, internal_samples=True)
+    smp = model.samples(spec)
+    opts = dict(sample_lists=case["sample_lists"], root_threshold=1, tracked=smp[::3])
+    ts = gen.build_tables(spec, tskit).tree_sequence()
+    ctx.nt(True)
+    run_history_ops(ctx, tskit, spec, ts, opts, case["ops"], deep_every=10**9)
+
+
 # ------------------------------------------------------------------ sub-check: exhaustive sequences
 @st.composite
 def exhaustive_case(draw):
@@ -626,6 +653,8 @@ SUBCHECKS = [
                      "next_to_null": 0.1, "prev_to_null": 0.1, "bad_seek": 0.1, "sample_lists": 0.2,
                      "tracked": 0.2, "internal_sample": 0.2, "mutations": 0.2, "null_reentry": 0.2,
                      "cleared_with_tracked_below_internal_sample": 0.05, "tracked_internal_reentered": 0.05}),
+    SubCheck("C06.large_shapes", run_large, enumerate=enum_large, quick=1, thorough=1,
+             rule="17-step navigation history on two-tree sequences over 65-130 (thorough: 300) leaf samples with internal samples tracked"),
     SubCheck("C06.exhaustive_ops", run_exhaustive, strategy=exhaustive_case, quick=600, thorough=1500,
              rule="tree sequence with >=2 trees; every operation sequence of length <=3 (quick) / <=4 "
                   "(thorough) over the alphabet is executed on a new Tree and its final state compared",
